@@ -10,6 +10,16 @@ hooks_commits = []
 hf = os.path.join(ROOT, "tools", "hook_commits.txt")
 if os.path.exists(hf):
     hooks_commits = [l.split()[0] for l in open(hf) if l.strip() and not l.startswith("#")]
+hold = {}
+hf2 = os.path.join(ROOT, "lib", "unclaimed.txt")
+if os.path.exists(hf2):
+    for l in open(hf2):
+        if l.strip() and not l.startswith("#"):
+            k, _, why = l.strip().partition(" ")
+            hold[k] = why
+for k, why in hold.items():
+    if k in PROPS:
+        PROPS[k] = dict(PROPS[k], claimed=False, na_reason=why)
 checks = []
 for pid in allp:
     if pid not in PROPS or not PROPS[pid].get("claimed", True):
